@@ -617,12 +617,12 @@ def run_histories(ctx, col, prm, items, pool, baseline, n_hist, hs0):
         def teardown(self):
             H.end()
 
-    run_state_machine_as_test(
+    core.deep_call(lambda: run_state_machine_as_test(
         hypothesis.seed(ctx.hyp_seed + 3)(Machine),
         settings=settings(max_examples=n_hist, stateful_step_count=prm['steps'],
                           database=None, deadline=None, phases=[Phase.generate],
                           derandomize=False, report_multiple_bugs=False,
-                          suppress_health_check=list(HealthCheck)))
+                          suppress_health_check=list(HealthCheck))))
     if H.session is not None:
         H.session.close()
 
